@@ -233,7 +233,12 @@ def _layout(case):
     def rec(m, inverses, names, depth):
         if depth == case["depth"]:
             return
+        pre = snapshot(m)
+        pre_order = list(m.keys())
         for name, apply, inv, fp in forward_ops(m):
+            if list(m.keys()) != pre_order or any(not np.array_equal(np.asarray(m[k]), pre[k]) for k in pre_order):
+                bad("C13/operand-mutated", f"{names}: a re-layout operation modified the multi-image it was applied to")
+                return
             try:
                 m2 = apply()
             except Exception as e:
